@@ -587,22 +587,17 @@ static Token *append_tokens(Token *tok1, Token *tok2) {
 static void cc1(void) {
   Token *tok = NULL;
 
-  // Process -include option
-  for (int i = 0; i < opt_include.len; i++) {
-    char *incl = opt_include.data[i];
-
-    char *path;
-    if (file_exists(incl)) {
-      path = incl;
-    } else {
-      path = search_include_paths(incl);
-      if (!path)
-        error("-include: %s: %s", incl, strerror(errno));
-    }
-
-    Token *tok2 = must_tokenize_file(path);
-    tok = append_tokens(tok, tok2);
-  }
+  // Process -include option. Each file is read as if an #include
+  // directive naming it preceded the first line of the main file, so
+  // that #pragma once and include guards work as usual.
+  char *incl;
+  size_t incl_len;
+  FILE *fp = open_memstream(&incl, &incl_len);
+  for (int i = 0; i < opt_include.len; i++)
+    fprintf(fp, "#include \"%s\"\n", opt_include.data[i]);
+  fclose(fp);
+  if (opt_include.len)
+    tok = tokenize(new_file("<command-line>", 0, incl));
 
   // Tokenize and parse.
   Token *tok2 = must_tokenize_file(base_file);
